@@ -153,6 +153,32 @@ CalcM(a, m, n) ==
            [] nd.op = "flat" -> Repeat(CalcM(a, m, nd.ins[1]), Positions(a, nd.ins[1]))
            [] OTHER          -> CalcM(a, m, nd.ins[1])
 
+(* Value classes (zero preservation, C01): what a channel of tensor n carries in the MASKED network.       *)
+(* "live" = data, "zero" = identically zero, "const" = a non-zero constant.  A pruned channel leaves a       *)
+(* searchable layer as "zero" (the mask is applied after bias / BatchNorm); element-wise ops with g(0) = 0,  *)
+(* pooling, flatten and concat preserve it; sigmoid (g(0) = 1/2) turns it into a constant that a consumer   *)
+(* still reads in the masked network although export() removes the channel.                                  *)
+ZeroPreservingOps == {"relu", "tanh", "silu", "drop", "id", "pool", "flat", "gsq"}
+JoinCls(x, y) == IF x = "live" \/ y = "live" THEN "live" ELSE IF x = "const" \/ y = "const" THEN "const" ELSE "zero"
+RECURSIVE Cls(_, _, _)
+Cls(a, m, n) ==
+    IF n = 0 THEN [c \in 1..a.c0 |-> "live"]
+    ELSE LET nd == Nd(a, n) IN
+         CASE nd.op \in {"conv", "lin"} ->
+                  IF Searchable(a, n) THEN [c \in 1..Ch(a, n) |-> IF m[n][c] THEN "live" ELSE "zero"]
+                  ELSE [c \in 1..Ch(a, n) |-> "live"]
+           [] nd.op \in {"add", "catt"} ->
+                  LET p == Cls(a, m, nd.ins[1])  q == Cls(a, m, nd.ins[2]) IN
+                  [c \in 1..Len(p) |-> IF c <= Len(q) THEN JoinCls(p[c], q[c]) ELSE p[c]]
+           [] nd.op = "cat"  -> ConcatPats([i \in 1..Len(nd.ins) |-> Cls(a, m, nd.ins[i])], 1)
+           [] nd.op = "flat" -> Repeat(Cls(a, m, nd.ins[1]), Positions(a, nd.ins[1]))
+           [] nd.op = "sig"  -> LET p == Cls(a, m, nd.ins[1]) IN [c \in 1..Len(p) |-> IF p[c] = "zero" THEN "const" ELSE p[c]]
+           [] OTHER          -> Cls(a, m, nd.ins[1])
+\* every channel that the reference dataflow says is dead must reach its consumers as "zero"
+ZeroPreservedM(a, m) ==
+    \A n \in Layers(a) : LET r == ActM(a, m, In1(a, n))  k == Cls(a, m, In1(a, n)) IN
+        \A c \in DOMAIN r : ~r[c] => k[c] = "zero"
+
 \* the per-layer patterns induced by an alive assignment f of the maskers
 MOf(a, f) == [n \in SearchLayers(a) |-> [c \in 1..Ch(a, n) |-> c \in AliveOf(a, f, n)]]
 Act(a, f, n)  == ActM(a, MOf(a, f), n)
@@ -213,12 +239,15 @@ KF_CatIntoAdd(a) ==
 KF_MixedWidthGroup(a) ==
     \E n \in SearchLayers(a) : HasMasker(a, n) /\ \E m \in CompDefining(a, n) : Ch(a, m) # MaskWidth(a, n)
 
+\* an element-wise op that does not map 0 to 0 (sigmoid) sits on a prunable tensor
+KF_NonZeroOp(a) == \E n \in 1..N(a) : Op(a, n) = "sig" /\ Prunable(a, In1(a, n))
+
 \* a channel concat feeds the network output directly: its prunable parts are not recognised as output-connected
 KF_CatIntoOutput(a) ==
     \E n \in 1..N(a) : Op(a, n) = "cat" /\ n \in Comp(a, N(a) + 1) /\
         \E i \in DOMAIN Ins(a, n) : Prunable(a, Ins(a, n)[i])
 
-Supported(a) == ~KF_CatIntoOutput(a) /\ ~KF_Reuse(a) /\ ~KF_DwOrphan(a) /\ ~KF_FixedInMaskedGroup(a)
+Supported(a) == ~KF_NonZeroOp(a) /\ ~KF_CatIntoOutput(a) /\ ~KF_Reuse(a) /\ ~KF_DwOrphan(a) /\ ~KF_FixedInMaskedGroup(a)
                 /\ ~KF_FixedAfterSearch(a) /\ ~KF_CatIntoAdd(a) /\ ~KF_MixedWidthGroup(a)
 
 (* ------------------------------ C09 invariants ------------------------- *)
